@@ -24,7 +24,7 @@ PROPS = {
     "C20": {
         "title": "Exported metrics match object status and label values match their keys",
         "level": "exploration",
-        "level_text": "Generated-input search against an explicit oracle: random label maps (dots, slashes, dashes, colliding keys, empty) checked for multiset equality {(sanitise(k), v)} against a reference sanitiser, and random object statuses fed to every metric family generator with each gauge compared to the status field it documents. Pure functions of small inputs, so tens of thousands of cases per run cover the input classes named in the property; no absence claim beyond that.",
+        "level_text": "Generated-input search against an explicit oracle: random label maps (dots, slashes, dashes, colliding keys, empty) checked for multiset equality {(sanitise(k), v)} against a reference sanitiser, and random object statuses fed to every metric family generator (all families of the ExtendedDaemonSet and of a replica set are generated before any series is read, as the metrics store composes them) with each gauge and label set compared to the status field it documents. Pure functions of small inputs, so tens of thousands of cases per run cover the input classes named in the property; no absence claim beyond that.",
         "level_note": "Trusted: the reference sanitiser ([^a-zA-Z0-9_] -> '_') and the gauge/field table in the test; metric registration with a live REST config is not exercised (shim returns the generators).",
         "technique": "property-based testing (rapid) with reference-model oracle + native go fuzz of label keys/values",
         "quick": {"jobs": [
@@ -137,7 +137,7 @@ PROPS["C12"] = {
 PROPS["C13"] = {
     "title": "One replica set per template, faithful to it, never collected while in use",
     "level": "exploration",
-    "level_text": "Stateful property test over template-edit words on a small alphabet (A->B->A, A->B->C, edits during a canary) with all reconcilers interleaved: no replica set is created while one with the same template hash exists; a created set's template, hash annotation and templateGeneration equal spec.template and its MD5; every created pod carries its creator's hash; a replica-set Delete never hits the set that is active or matches spec.template after the reconcile, only sets whose status as read is all zero, and a failed canary not before two minutes; the PodTemplate equals spec.template and its hash after its reconcile.",
+    "level_text": "Stateful property test over template-edit words on a small alphabet (A->B->A, A->B->C, edits during a canary) with all reconcilers interleaved: no replica set is created while one with the same template hash exists; a created set's template, hash annotation and templateGeneration equal spec.template and its MD5; every created pod carries its creator's hash; a replica-set Delete never hits the set that is active or matches spec.template after the reconcile, only sets whose status as read is all zero, and a failed canary not before two minutes; the PodTemplate equals spec.template and its hash after its reconcile. A scripted revert family (template X, Y, X again while X's set is held by a finalizer; one replica-set creation optionally refused or stored-but-answered-with-an-error) checks that a terminating or just-created set is re-used and never doubled.",
     "level_note": SM_NOTE,
     "technique": "stateful property-based testing (rapid) with per-step invariants; template hash recomputed independently (MD5 of the JSON rendering)",
     "quick": {"jobs": [rapid_job("sm", "^TestC13SM$", 750, shards=4), rapid_job("revert", "^TestC13Revert$", 150, shards=2)]},
@@ -147,8 +147,8 @@ PROPS["C13"] = {
 PROPS["C14"] = {
     "title": "Status tells the truth about replica sets and pods",
     "level": "exploration",
-    "level_text": "Stateful property test: after every successful EDS reconcile the stored status is compared with a reference implementation of the documented status function applied to the replica-set statuses that reconcile read (sums, desired/upToDate from active and canary set, state, reason, Canary-Paused/Canary-Failed conditions); after every active/canary sync 0<=available<=ready<=current<=desired; after stabilisation the counters are compared with the pods and nodes that exist. A function-level test feeds the status function alone with 1-3 replica sets carrying generated counters (incl. leftover sets with non-zero counters and sets that are being deleted under a finalizer while they still report pods), conditions, roles and annotation settings.",
-    "level_note": SM_NOTE,
+    "level_text": "Stateful property test: after every successful EDS reconcile the stored status is compared with a reference implementation of the documented status function applied to the replica-set statuses that reconcile read (sums, desired/upToDate from active and canary set, state, reason, Canary-Paused/Canary-Failed conditions); after every active/canary sync 0<=available<=ready<=current<=desired; after stabilisation the counters are compared with the pods and nodes that exist. A function-level test feeds the status function alone with 1-3 replica sets carrying generated counters (incl. leftover sets with non-zero counters and sets that are being deleted under a finalizer while they still report pods), conditions, roles and annotation settings. A third job runs the reconcilers event-driven (watch wiring, Requeue/RequeueAfter/error handling and the no-event-for-a-no-op-write rule modelled after controllers/*_controller.go and the controller-runtime worker, virtual clock): disturbances are placed around the active replica set's next sync time and after 2 x reconcileFrequency + 2s of quiet the counters must equal what exists; the recorded sub-second-frequency finding has its own deterministic reproducer.",
+    "level_note": SM_NOTE + " The event-driven scheduler is a hand-written model of controller-runtime (no informer lag, no 10-hour resync); it draws reconcile frequencies of one second or more (below that the recorded finding F21 applies).",
     "technique": "stateful property-based testing (rapid) against a reference status function + quiescent-state oracle + function-level property test of the status function",
     "quick": {"jobs": [rapid_job("sm", "^TestC14SM$", 500, shards=4), rapid_job("function", "^TestC14StatusFunction$", 3000, shards=2), rapid_job("queue", "^TestC14Queue$", 400, shards=2), rapid_job("known", "^TestC14Known", 1)]},
     "thorough": {"jobs": [rapid_job("sm", "^TestC14SM$", 2500, shards=12, timeout="50m"), rapid_job("function", "^TestC14StatusFunction$", 40000, shards=4), rapid_job("queue", "^TestC14Queue$", 6000, shards=6, timeout="50m"), rapid_job("known", "^TestC14Known", 1)]},
@@ -171,7 +171,7 @@ PROPS["C06"] = {
 PROPS["C16"] = {
     "title": "Defaulting is a fixed point and no accepted spec can crash the controller",
     "level": "exploration",
-    "level_text": "Strategies are drawn from the boundary lattice of every field (absent, 0, negative, 1, huge, percent, malformed percent, plain string; durations <= 0 and > 0; booleans; validation mode; canary block and sub-blocks present or absent; unusable canary nodeSelector) for both controller default modes; the oracle checks Default idempotent and non-mutating, IsDefaulted(Default(x)), every field the reconcilers dereference filled, no user-set value changed (only template.metadata.name cleared), Validate returning and rejecting the three documented cases, and then runs 11 rounds of the real reconcilers (first deployment, template change so the canary paths execute, restarting pods, elapsed time) on a store holding the undefaulted object: errors are fine, a panic is a violation. The thorough tier adds coverage-guided native fuzzing of the serialized strategy (accepted iff it decodes into the typed spec and validationMode is in the CRD enum).",
+    "level_text": "Strategies are drawn from the boundary lattice of every field (absent, 0, negative, 1, huge, percent, malformed percent, plain string; durations <= 0 and > 0; booleans; validation mode; canary block and sub-blocks present or absent; unusable canary nodeSelector or one that matches no node, anti-affinity keys) for both controller default modes and clusters of three, one or no nodes; the oracle checks Default idempotent and non-mutating, IsDefaulted(Default(x)), every field the reconcilers dereference filled, no user-set value changed (only template.metadata.name cleared), Validate returning and rejecting the three documented cases, and then runs 11 rounds of the real reconcilers (first deployment, template change so the canary paths execute, restarting pods, elapsed time) on a store holding the undefaulted object: errors are fine, a panic is a violation. The thorough tier adds coverage-guided native fuzzing of the serialized strategy (accepted iff it decodes into the typed spec and validationMode is in the CRD enum).",
     "level_note": "The CRD schema constrains only types, the validationMode enum and int-or-string, which is what 'accepted' means here; template content is fixed (one container).",
     "technique": "property-based testing (rapid) over a boundary lattice with round-trip/idempotence oracles and crash detection + native go fuzz of the serialized spec",
     "quick": {"jobs": [rapid_job("lattice", "^TestC16Lattice$", 1500, shards=4)]},
@@ -235,7 +235,7 @@ PROPS["C17"] = {
 PROPS["C19"] = {
     "title": "kubectl-eds commands change only what they document; the controller obeys them",
     "level": "exploration",
-    "level_text": "Stateful property test whose user actions are the real command bodies (run through build-tagged shims with an injected client): a generated prefix history reaches no canary / canary running / auto-paused / user-paused / failed / mid rolling update, then up to three commands, each followed by fair rounds. Oracle: the store diff before/after a command touches only the documented annotation keys (for `fail`: only the canary replica set's Canary-Failed condition); a command whose precondition is false, or that returns an error, writes nothing; annotation values are the documented ones; within six rounds pause => Canary Paused, unpause => Canary, validate => exactly the replica set that was status.canary.replicaSet when the command ran is active (a later template is not promoted by the old annotation: promotion-rule monitor), fail => rollback. A scenario family covers `canary fail` on a re-used replica set.",
+    "level_text": "Stateful property test whose user actions are the real command bodies (run through build-tagged shims with an injected client): a generated prefix history reaches no canary / canary running / auto-paused / user-paused / failed / mid rolling update, then up to three commands, each followed by fair rounds. Oracle: the store diff before/after a command touches only the documented annotation keys (for `fail`: only the canary replica set's Canary-Failed condition); a command whose precondition is false, or that returns an error, writes nothing; annotation values are the documented ones; within six rounds pause => Canary Paused, unpause => Canary, validate => exactly the replica set that was status.canary.replicaSet when the command ran is active (a later template is not promoted by the old annotation: promotion-rule monitor), fail => rollback. A scenario family covers `canary fail` on a re-used replica set, another runs the real `canary fail` body between the read and the status write of a sync of the canary set, and every sequence of one to four `canary pause` / `canary unpause` command bodies (x closing validate / fail / none x validation mode; 180 configurations) is enumerated on a running canary with the documented annotations and the controller's reading demanded after each command.",
     "level_note": "Expectations about the controller's interpretation are only demanded when the command acted on the current canary (status.canary matching spec.template) and, for fail, when the canary is not explicitly validated.",
     "technique": "stateful property-based testing (rapid) with real command bodies as actions, store-diff oracle and bounded-rounds interpretation oracle",
     "quick": {"jobs": [rapid_job("commands", "^TestC19Commands$", 300, shards=4), rapid_job("reused-set", "^TestC19FailReusedSet$", 60), rapid_job("fail-mid-sync", "^TestC19FailMidSync$", 60, requires="verif_plugin"), rapid_job("sequences", "^TestC19CanarySequences$", 1, shards=4, requires="verif_plugin")]},
